@@ -65,6 +65,24 @@ def run(tier, seed):
             if got != want:
                 rep.violation("C15:batch-differs-from-elementwise", "call_batch returned %r, individual calls return %r" % (got, want),
                               {"backend": kind0, "elements": [leaf[k]["id"] for k in order], "pre_memoized": [leaf[k]["id"] for k in pre0], "batch_result": got, "elementwise": want})
+            # raise_first_exception: the exception of the FIRST failing slot, whichever failures were memoized beforehand
+            base2 = base + 50
+            leaf2 = [{"id": base2 + k} for k in range(4)]
+            for k in (1, 3):
+                leaf2[k]["raise"] = {"cls": "ValueError", "msg": "%d" % (base2 + k)}
+            try:
+                fnmod.n1(leaf2[3])              # only the LATER failure is memoized beforehand
+            except ValueError:
+                pass
+            try:
+                fnmod.n1.call_batch([{"spec": leaf2[k]} for k in range(4)], raise_first_exception=True)
+                raised2 = None
+            except Exception as e:
+                raised2 = norm_result(e)
+            total += 1
+            if raised2 != ("exc", "%d" % (base2 + 1)):
+                rep.violation("C15:raise-first-wrong", "raise_first_exception=True raised %r; the first failing element gives %r" % (raised2, ("exc", "%d" % (base2 + 1))),
+                              {"backend": kind0, "elements": [x["id"] for x in leaf2], "failing": [base2 + 1, base2 + 3], "pre_memoized": [base2 + 3]})
             shutil.rmtree(os.path.join(scratch, "store-pm%d" % ti), ignore_errors=True)
         for pi in range(nprog):
             prog = R.gen_program(rng, rng.randint(3, 7), p_batch=0.7)
